@@ -42,7 +42,16 @@ def mai_ref(fn, hsn, maio, n):
 
 
 def jobs(tier, seed):
-    return [('py.N=%d' % n, 'h_py', dict(n=n)) for n in range(1, 65)] + [('py.table', 'h_table', {})]
+    out = [('py.N=%d' % n, 'h_py', dict(n=n)) for n in range(1, 65)] + [('py.table', 'h_table', {})]
+    out += [('c.N=%d' % n, 'c_hop', dict(n=n)) for n in range(1, 65)]
+    out += [('c.table', 'c_table', {}), ('c.not-hopping', 'c_fixed', {}), ('c.validation', 'c_validate', dict(seed=seed))]
+    return out
+
+
+def run_job(hid, fname, shape, timeout_ms):
+    if fname.startswith('c_'):
+        return globals()[fname](hid, timeout_ms=timeout_ms, **shape)
+    return core.explore(globals()[fname], hid, shape, timeout_ms=timeout_ms)
 
 
 def h_table(ctx):
@@ -64,3 +73,165 @@ def h_py(ctx, n):
         got = hp.resolve(fn)
     want = lookup(ma, mai_ref(fn, hsn, maio, n))
     ctx.check('resolve==MA[MAI]', eq(got, want))
+
+
+# ------------------------------------------------------------------ firmware side (llsym)
+import os, random
+import z3
+from .. import llsym, cjob
+from ..llsym import V, C, Ptr, Exec
+
+RFCH = os.path.join(cjob.FW, 'layer1/rfch.c')
+PRELUDE = '#include <stdint.h>\n#include <layer1/sync.h>\n'
+FIELDS = ['sizeof(struct l1s_state)', 'offsetof(struct l1s_state, dedicated.type)', 'offsetof(struct l1s_state, dedicated.h)', 'offsetof(struct l1s_state, dedicated.h1.hsn)',
+          'offsetof(struct l1s_state, dedicated.h1.maio)', 'offsetof(struct l1s_state, dedicated.h1.n)', 'offsetof(struct l1s_state, dedicated.h1.ma)',
+          'offsetof(struct l1s_state, dedicated.h0.arfcn)', 'offsetof(struct l1s_state, dedicated.tsc)', 'offsetof(struct l1s_state, dedicated.tn)',
+          'offsetof(struct l1s_state, serving_cell.arfcn)', 'offsetof(struct l1s_state, serving_cell.bsic)', 'sizeof(((struct l1s_state*)0)->dedicated.type)']
+META['functions'] += ['rfch.c: rfch_get_params', 'rfch.c: rfch_hop_seq_gen', 'rfch.c: pow_nbin_mask', 'rfch.c: rn_table (IR initializer, compared with the pinned table)']
+META['stubs'] += ['struct l1s_state object laid out with compiler-computed offsets; struct gsm_time argument holds the decomposition of a symbolic FN (C19 proves that decomposition)']
+META['explanation'] += '; firmware: rfch_get_params() executed symbolically from LLVM IR for each N with l1s.dedicated.h1 = (hsn, maio, N, MA) symbolic: ARFCN == MA[MAI_ref]; all table indices in bounds; Python == reference and C == reference give Python == C'
+
+
+def _offs():
+    return cjob.offsets(PRELUDE, FIELDS, cjob.FW_INCS)
+
+
+def mai_ref_z3(fn, hsn, maio, n, ex):
+    t1r = (fn / 1326) % 64; t2 = fn % 26; t3 = fn % 51
+    f = core.table_fn(RNTABLE)
+    ex.assumes.extend(core.TABLE_AX_BY_FN[f.name()])
+    x = z3.BV2Int(z3.Int2BV(hsn, 6) ^ z3.Int2BV(t1r, 6))
+    m = t2 + f(x + t3)
+    nb = 1 << n.bit_length()
+    mp = m % nb; tp = t3 % nb
+    s_ = z3.If(mp < n, mp, (mp + tp) % n)
+    return z3.If(hsn == 0, (fn + maio) % n, (s_ + maio) % n)
+
+
+def _setup(ex, j, n, hopping=True):
+    o = _offs()
+    l1s = 'g:@l1s'; ex.objs[l1s] = o[FIELDS[0]]
+    fn = j.var(ex, 'fn', 0, HYPER - 1); hsn = j.var(ex, 'hsn', 0, 63); maio = j.var(ex, 'maio', 0, 63)
+    cells = {}
+    tsz = o[FIELDS[12]]
+    cells[o[FIELDS[1]]] = (tsz, C(1))                      # dedicated.type != GSM_DCHAN_NONE
+    cells[o[FIELDS[2]]] = (1, C(1 if hopping else 0))
+    cells[o[FIELDS[3]]] = (1, hsn); cells[o[FIELDS[4]]] = (1, maio); cells[o[FIELDS[5]]] = (1, C(n))
+    ma = [1000 + 7 * k for k in range(64)]
+    for k in range(64): cells[o[FIELDS[6]] + 2 * k] = (2, C(ma[k]))
+    cells[o[FIELDS[8]]] = (1, C(5)); cells[o[FIELDS[9]]] = (1, C(3))
+    # struct gsm_time argument = decomposition of fn
+    tobj = ex.new_obj(12, 'gsm_time')
+    tc = {0: (4, fn), 4: (2, V(fn.e / 1326, 0, 2047)), 6: (1, V(fn.e % 26, 0, 25)), 7: (1, V(fn.e % 51, 0, 50)), 8: (1, V((fn.e / 51) % 8, 0, 7))}
+    outs = {k: ex.new_obj(sz, k) for k, sz in (('arfcn', 2), ('tsc', 1), ('tn', 1))}
+    mem = {l1s: cells, tobj: tc}
+    return fn, hsn, maio, ma, tobj, outs, mem
+
+
+def c_hop(hid, n, timeout_ms=60000):
+    j = cjob.CJob(hid, timeout_ms)
+    M = cjob.ir('rfch', RFCH, cjob.FW_INCS)
+    ex = Exec(M)
+    fn, hsn, maio, ma, tobj, outs, mem = _setup(ex, j, n)
+    out = ex.run('@rfch_get_params', [Ptr(tobj, C(0)), Ptr(outs['arfcn'], C(0)), Ptr(outs['tsc'], C(0)), Ptr(outs['tn'], C(0))], mem)
+    j.witness(ex, [])
+    got = out.mem[outs['arfcn']][0][1]
+    mai = mai_ref_z3(fn.e, hsn.e, maio.e, n, ex)
+    want = I_(ma[n - 1])
+    for k in range(n - 2, -1, -1): want = z3.If(mai == k, ma[k], want)
+    j.must_hold(ex, 'arfcn==MA[MAI]', [], got.e == want)
+    j.must_hold(ex, 'tsc', [], out.mem[outs['tsc']][0][1].e == 5); j.must_hold(ex, 'tn', [], out.mem[outs['tn']][0][1].e == 3)
+    j.memory_obligations(ex, [])
+    j.stats.extra['ir_steps'] = ex.steps
+    return j.stats
+
+
+def I_(v): return z3.IntVal(v)
+
+
+def c_fixed(hid, timeout_ms=60000):
+    j = cjob.CJob(hid, timeout_ms)
+    M = cjob.ir('rfch', RFCH, cjob.FW_INCS)
+    ex = Exec(M)
+    fn, hsn, maio, ma, tobj, outs, mem = _setup(ex, j, 5, hopping=False)
+    o = _offs()
+    arf = j.var(ex, 'h0.arfcn', 0, 65535)
+    mem['g:@l1s'][o[FIELDS[7]]] = (2, arf)
+    out = ex.run('@rfch_get_params', [Ptr(tobj, C(0)), Ptr(outs['arfcn'], C(0)), Ptr(outs['tsc'], C(0)), Ptr(outs['tn'], C(0))], mem)
+    j.witness(ex, [])
+    j.must_hold(ex, 'non-hopping:arfcn==h0.arfcn', [], out.mem[outs['arfcn']][0][1].e == arf.e)
+    j.memory_obligations(ex, [])
+    return j.stats
+
+
+def c_table(hid, timeout_ms=60000):
+    j = cjob.CJob(hid, timeout_ms)
+    M = cjob.ir('rfch', RFCH, cjob.FW_INCS)
+    ex = Exec(M); ex.init_global('@rn_table')
+    cells = ex.ginit['g:@rn_table']
+    got = [cells[i][1].conc() for i in range(len(cells))]
+    j.stats.obligations += 1
+    if got == RNTABLE: j.stats.discharged += 1
+    else: j.stats.failures.append(dict(harness=hid, obligation='rn_table==pinned', inputs={}, info=dict(got=repr(got))))
+    x = j.var(ex, 'dummy', 0, 1); j.witness(ex, [])
+    return j.stats
+
+
+def native_hop(rows):
+    """rows: (fn, hsn, maio, n) -> arfcn by the natively compiled rfch.c"""
+    drv = '#include <stdio.h>\n#include <stdlib.h>\n#include <string.h>\n#include "%s"\nstruct l1s_state l1s;\n' % RFCH + r"""
+void gsm_fn2gsmtime(struct gsm_time *time, uint32_t fn) { time->fn = fn; time->t1 = fn / (26*51); time->t2 = fn % 26; time->t3 = fn % 51; time->tc = (fn / 51) % 8; }
+int main(int argc, char **argv) {
+  for (int i = 1; i + 3 < argc; i += 4) {
+    uint32_t fn = strtoul(argv[i], 0, 10); struct gsm_time t; gsm_fn2gsmtime(&t, fn);
+    memset(&l1s, 0, sizeof(l1s));
+    l1s.dedicated.type = 1; l1s.dedicated.h = 1; l1s.dedicated.h1.hsn = atoi(argv[i+1]); l1s.dedicated.h1.maio = atoi(argv[i+2]); l1s.dedicated.h1.n = atoi(argv[i+3]);
+    for (int k = 0; k < 64; k++) l1s.dedicated.h1.ma[k] = 1000 + 7 * k;
+    uint16_t arfcn = 0; uint8_t tsc, tn;
+    rfch_get_params(&t, &arfcn, &tsc, &tn);
+    printf("%u\n", arfcn);
+  }
+  return 0;
+}
+"""
+    args = [x for r in rows for x in r]
+    rc, out = cjob.run_native(drv, None, cjob.FW_INCS, args=args)
+    if rc != 0: raise core.HarnessError('native rfch driver failed: %s' % out[-1500:])
+    return [int(x) for x in out.split()]
+
+
+def py_mai(fn, hsn, maio, n):
+    return mai_ref(fn, hsn, maio, n)
+
+
+def replay(body):
+    i = body['inputs']; n = body['shape'].get('n', 5)
+    got = native_hop([(i.get('fn', 0), i.get('hsn', 0), i.get('maio', 0), n)])[0]
+    want = 1000 + 7 * py_mai(i.get('fn', 0), i.get('hsn', 0), i.get('maio', 0), n)
+    if got != want: return 1, 'REPRODUCED on native rfch.c: fn=%s hsn=%s maio=%s N=%d -> ARFCN %d, TS 45.002 reference %d' % (i.get('fn'), i.get('hsn'), i.get('maio'), n, got, want)
+    return 0, 'native rfch.c agrees with the reference (%d)' % got
+
+
+def c_validate(hid, seed, timeout_ms=60000):
+    j = cjob.CJob(hid, timeout_ms)
+    rnd = random.Random(seed + 7)
+    rows = [(rnd.randrange(HYPER), rnd.randrange(64), rnd.randrange(64), rnd.randint(1, 64)) for _ in range(200)]
+    nat = native_hop(rows)
+    M = cjob.ir('rfch', RFCH, cjob.FW_INCS)
+    for (fn, hsn, maio, n), a in zip(rows, nat):
+        ex = Exec(M)
+        jj = cjob.CJob('x')
+        f_, h_, m_, ma, tobj, outs, mem = _setup(ex, jj, n)
+        sub = [(f_.e, I_(fn)), (h_.e, I_(hsn)), (m_.e, I_(maio))]
+        out = ex.run('@rfch_get_params', [Ptr(tobj, C(0)), Ptr(outs['arfcn'], C(0)), Ptr(outs['tsc'], C(0)), Ptr(outs['tn'], C(0))], mem)
+        g = out.mem[outs['arfcn']][0][1]
+        sv = z3.Solver(); sv.add(*ex.assumes); sv.add(f_.e == fn, h_.e == hsn, m_.e == maio)
+        assert sv.check() == z3.sat
+        val = sv.model().eval(g.e, model_completion=True).as_long()
+        j.stats.obligations += 1
+        if val == a: j.stats.discharged += 1
+        else: j.stats.failures.append(dict(harness=hid, obligation='interpreter==native', inputs=dict(fn=fn, hsn=hsn, maio=maio), info=dict(interp=val, native=a, n=n)))
+    j.stats.extra['translator_validation_runs'] = len(rows)
+    j.stats.samples.append(dict(harness=hid, note='%d concrete rows through interpreter and native rfch.c' % len(rows), sample=dict(row=rows[0], native=nat[0])))
+    j.stats.witnesses += 1
+    return j.stats
